@@ -36,4 +36,10 @@ PROPS = {
         "quick": {"cases": 1500, "secs": 45, "min_distinct": 1500},
         "thorough": {"cases": 40000, "secs": 900, "min_distinct": 100000},
     },
+    "C10": {
+        "rule": "even cases: a wild world (any value shape, record keys that are or resemble the JSON escapes __entity/__extn/__expr, i64 extremes, non-BMP strings, nested sets of records of entities, extension values) without schema: store / single-entity / context to_json -> from_json must be deep_eq and equal to the model (read back through the core view), a store the model calls representable must serialise, one with reserved keys must be refused or survive unaltered; odd cases: a random schema + conformant world: with-schema and without-schema round trips of the schema-loaded store, harness-written JSON with an independent per-value choice of implicit ({type,id} / plain string / {fn,arg}) versus explicit (__entity/__extn) spelling parsed with the schema must equal the model and the explicit form parsed without it (action entities excepted), same for the context with (schema, action); non-trivial = document with >=1 entity reference or extension value (wild) / >=1 implicit form used (schema); distinct = hash of the world (and schema)",
+        "assumptions": ["equality with the model is read through the doc-hidden core view of the store (attrs/tags as values, ancestors()) and through evaluating `context`"],
+        "quick": {"cases": 6000, "secs": 40, "min_distinct": 10000},
+        "thorough": {"cases": 200000, "secs": 900, "min_distinct": 500000},
+    },
 }
